@@ -31,7 +31,7 @@ func unhx(s string) []byte {
 	return b
 }
 
-const opTimeout = 20 * time.Second
+const opTimeout = 90 * time.Second // a real hang is unbounded; a loaded machine must not look like one
 
 // guarded runs f under recover and a watchdog; a hang is reported as "hang".
 func guarded(f func() string) (res string) {
